@@ -28,6 +28,13 @@ HIST_QUICK = [
 ]
 
 
+HIST_PARTIAL = [
+    ["freeze-one", "freeze", "forward", "freeze"],
+    ["freeze-last", "deepcopy", "freeze", "to"],
+    ["calibrate", "freeze-one", "forward", "freeze"],
+]
+
+
 def histories(tier):
     if tier == "quick":
         return HIST_QUICK
@@ -49,6 +56,10 @@ def cases(tier, seed):
                     if kind == "linear-wide" and (q in wq.QT8 or a is not None):
                         continue
                     out.append(dict(kind=kind, dtype=dt, qtype=q, act=a, histories=hs if kind != "linear-wide" else hs[:2]))
+        # partially frozen models: one module frozen by hand (or the model quantized and frozen in two steps) before freeze(model)
+        for q in ALLQ if tier == "thorough" else ["qint8", "qint4", "qfloat8_e4m3fn"]:
+            for a in acts[:2]:
+                out.append(dict(kind="mlp", dtype=dt, qtype=q, act=a, histories=HIST_PARTIAL))
     return out
 
 
@@ -119,6 +130,11 @@ def run_history(model, x, hist, read, calibrate_input=None):
         try:
             if step == "freeze":
                 freeze(cur)
+            elif step in ("freeze-one", "freeze-last"):
+                from optimum.quanto.nn import QModuleMixin
+
+                qms = [m_ for m_ in cur.modules() if isinstance(m_, QModuleMixin)]
+                (qms[0] if step == "freeze-one" else qms[-1]).freeze()
             elif step == "deepcopy":
                 cur = copy.deepcopy(cur)
             elif step == "to":
